@@ -4,7 +4,7 @@
 listings and the copy check observed after every call."""
 from props import _con
 
-CLAUSES = ["C18_lookup", "C18_typed", "C18_copy", "C18_get"]
+CLAUSES = ["C18_lookup", "C18_typed", "C18_copy", "C18_get", "C18_held"]
 
 
 def run(tier, seed):
@@ -15,7 +15,8 @@ def run(tier, seed):
     return _con.run_model("C18", "MC_Con",
                           dict(base, MaxDepth=dA), dict(base, MaxDepth=dB),
                           dict(base, MaxDepth=5), nsetup=5, walk_len=10,
-                          nwalks=150 if quick else 1500, seed=seed, clauses=CLAUSES)
+                          nwalks=150 if quick else 1500, seed=seed, clauses=CLAUSES,
+                          extra_B=[{"Scenario": '"c18b"', "MaxDepth": 2 if quick else 3}])
 
 
 def replay(path):
